@@ -79,6 +79,7 @@ def first_order_failure(m, var, route, env, as_object):
 
 
 def check(stats, m, var, route, envs, as_object=False, rat_points=None, second=None, sub="symbolic"):
+    m = safe(m)
     stats.case()
     vs = M.variables(m)
     case = make_case(sub, m, None, var=var, route=route, as_object=as_object,
